@@ -61,7 +61,7 @@ CLAIMED = {
             'bounded wrapper model (WindowKeeps) + window traces validated against the referencing rule'),
     'C10': ('5/C10, 3.3',
             'spec/Ioapi.tla defines Coherent (the conjunction the property lists) on the projected metadata block; spec/Ioapi_Trace.tla requires it after every call of seeded random programs (depth 1-3: copy, slice incl. windows, subset, rename, apply over TSTEP/LAY/ROW/COL, eval, mask, stack, interpSigma linear/conserve) over IOAPI templates I1-I5 (gridded, boundary, 24-hour step, leap-day start with 30-minute step, file read from disk) whenever every input was coherent; also well-formedness and TSTEP unlimited.',
-            'Trusted: the metadata projection (harness/ioapi_driver.py meta_of: integer attributes, VAR-LIST split in 16-character fields). Not demanded: results with NVARS=0 or an empty time axis, zipped selections (they replace the standard dimensions), operations outside the property list (renameDimension, insertDimension, removeSingleton). spec/Ioapi_MC.tla is the bounded design model of the wrappers (structural file + metadata block, every operation = core effect + the wrapper's metadata rule): TLC checks Inv_Coherent, Inv_WellFormed and the action property WindowKeeps over all programs of depth 2 (quick) / 3 (thorough), shows for each wrapper that dropping its rule is detected, and emits every program for replay.',
+            'Trusted: the metadata projection (harness/ioapi_driver.py meta_of: integer attributes, VAR-LIST split in 16-character fields). Not demanded: results with NVARS=0 or an empty time axis, zipped selections (they replace the standard dimensions), operations outside the property list (renameDimension, insertDimension, removeSingleton). spec/Ioapi_MC.tla is the bounded design model of the wrappers (structural file + metadata block, every operation = core effect + the metadata rule of the wrapper): TLC checks Inv_Coherent, Inv_WellFormed and the action property WindowKeeps over all programs of depth 2 (quick) / 3 (thorough), shows for each wrapper that dropping its rule is detected, and emits every program for replay.',
             'bounded wrapper model (Inv_Coherent, sharpness per wrapper) + IOAPI program traces validated'),
     'C06': ('5/C06, 3.1',
             'Exp_arith (13 operators, masked operands, division by zero -> masked, coordinate pass-through), Exp_eval (expression grammar var/int/binary/where) and Exp_mask (predicate combinations, where with/without dims, coords flag) are evaluated by TLC in exact rationals on every arith/eval/mask step and compared with the logged result.',
